@@ -60,7 +60,7 @@ func groupWorld(r *R) {
 		r.Fault("parent_deadline")
 	}
 	g := xsync.NewGroup(parent.C)
-	strict := r.Cfg.StallPer1k == 0 && r.Cfg.LatePer1k == 0
+	strict := r.Cfg.StallPer1k == 0 && r.Cfg.LatePer1k == 0 && r.Cfg.ClockTickPer1k == 0
 
 	regs := make([]*groupReg, nreg)
 	var longest time.Duration
